@@ -17,19 +17,24 @@ import copy
 from . import core, schedules, workloads
 from .runner import Check
 
-KINDS = ["Error", "MyErr", "IndexError", "RuntimeError", "PropertyError", "IoError", "StackOverflow", "OperandError"]
+KINDS = ["Error", "MyErr", "IndexError", "RuntimeError", "PropertyError", "IoError", "StackOverflow", "OperandError", "Shadow"]
 # the class an injected error of each kind has (unbounded recursion is reported as a RuntimeError)
 CLASS_OF = {kind: kind for kind in KINDS}
 CLASS_OF["StackOverflow"] = "RuntimeError"
 # an operator applied to operands of the wrong type (the instruction has already popped its operands when it fails)
 CLASS_OF["OperandError"] = "RuntimeError"
+# an instance of a second, unrelated class that is also called MyErr (declared inside a function): it prints like
+# MyErr, it is an Error, and a clause filtering on the module's MyErr does not take it
+CLASS_OF["Shadow"] = "MyErr"
 FILTERS = ["Error", "Error", "Error", "MyErr", "IndexError", "RuntimeError", "PropertyError", "IoError"]
 DATA = "/sim/data.txt"
 
 
 class Raise(Exception):
-    def __init__(self, cls, raised=False):
+    def __init__(self, cls, raised=False, ident=None):
         self.cls = cls
+        # what a catch filter compares with (the class itself, not its name)
+        self.ident = ident or cls
         # raised by a raise statement of the program (message 'injected') rather than by the runtime
         self.raised = raised
 
@@ -166,6 +171,10 @@ def generate(r):
     # the outermost handler (module level) usually catches everything, sometimes only one class: then an injected error of
     # another class has no matching handler at all and must end the program with a traceback and a failing status
     funs[0]["top_filter"] = r.choice(["Error", "Error", "Error"] + FILTERS)
+    # in a quarter of the programs the outermost function is the root of a launched fiber (its stack is sized from that
+    # function alone); its result comes back through a channel and nothing outside can catch what escapes it
+    if shapes[0] != "method" and r.random() < 0.25:
+        funs[0]["root"] = True
     return funs
 
 
@@ -184,7 +193,9 @@ def render(funs, target, kind):
         "IoError": "nil;",
         "StackOverflow": "overflow(0);",
         "OperandError": "1 + nil;",
+        "Shadow": "raise mkshadow()('injected');",
     }[kind]
+    lines.append("fn mkshadow() { class MyErr : Error {} MyErr }")
     lines.append("fn overflow(n) { overflow(n + 1) }")
     # every fault point performs one read of the simulated file system; in the IoError kind that read is
     # what fails (injected by the simulator), in the other kinds the fault point itself raises
@@ -200,6 +211,8 @@ def render(funs, target, kind):
         for name in names:
             out += ", %s()" % name if name.startswith("g") else ", %s" % name
         return out
+
+    root_mode = [False]
 
     def rb(stmts, ind):
         out = []
@@ -221,7 +234,10 @@ def render(funs, target, kind):
             elif s[0] == "print":
                 out.append("%sprint('%s'%s);" % (ind, s[1], names_tail(s[2])))
             elif s[0] == "ret":
-                out.append("%sreturn %d;" % (ind, s[1]))
+                if root_mode[0]:
+                    out.append("%sFIN <- %d; return nil;" % (ind, s[1]))
+                else:
+                    out.append("%sreturn %d;" % (ind, s[1]))
             elif s[0] in ("break", "continue"):
                 out.append("%s%s;" % (ind, s[0]))
             elif s[0] == "loop":
@@ -277,7 +293,9 @@ def render(funs, target, kind):
     for fi in reversed(range(len(funs))):
         fun = funs[fi]
         ps = ", ".join("p%d_%d" % (j, fi) for j in range(fun["params"]))
-        body = rb(fun["body"], "  ") + ["  return %d;" % (9000 + fi)]
+        root_mode[0] = fi == 0 and bool(fun.get("root"))
+        body = rb(fun["body"], "  ") + ["  FIN <- %d; return nil;" % (9000 + fi) if root_mode[0] else "  return %d;" % (9000 + fi)]
+        root_mode[0] = False
         if fun["shape"] == "method":
             lines.append("class Host%d : Host { m%d(%s) {" % (fi, fi, ps))
             lines += body
@@ -299,7 +317,10 @@ def render(funs, target, kind):
     first = call_text(0, [7000 + j for j in range(funs[0]["params"])])
     if funs[0]["shape"] == "method":
         first = first.replace("Host().m0(", "Host0().m0(")
-    text += "\ntry { print('R', %s); } catch e: %s { print('TOP', e.cls().name()); }\n" % (first, funs[0].get("top_filter", "Error"))
+    if funs[0].get("root"):
+        text = "let FIN = chan(1);\n" + text + "\nlaunch %s;\nprint('R', <- FIN);\n" % first
+    else:
+        text += "\ntry { print('R', %s); } catch e: %s { print('TOP', e.cls().name()); }\n" % (first, funs[0].get("top_filter", "Error"))
     text += "let after = %d;\nprint('END', CNT, after);\n" % 4242
     return text
 
@@ -330,7 +351,7 @@ def model(funs, target, kind):
             elif s[0] in ("fp", "fpi"):
                 count[0] += 1
                 if count[0] == target:
-                    raise Raise(CLASS_OF[kind], kind in ("Error", "MyErr"))
+                    raise Raise(CLASS_OF[kind], kind in ("Error", "MyErr", "Shadow"), "a second class named MyErr" if kind == "Shadow" else None)
             elif s[0] == "call":
                 out.append("R %s" % call(s[1], s[2]))
             elif s[0] == "print":
@@ -374,7 +395,7 @@ def model(funs, target, kind):
                     run_block(s[1], env)
                 except Raise as error:
                     for clause_filter, handler in [[s[3], s[4]]] + (s[5] if len(s) > 5 else []):
-                        if clause_filter == "Error" or clause_filter == error.cls:
+                        if clause_filter == "Error" or clause_filter == error.ident:
                             out.append(show("C %s %s %s" % (clause_filter, error.cls, "true" if error.raised else "false"), env, s[2]))
                             outer = env.get("$error")
                             env["$error"] = error.cls
@@ -394,11 +415,11 @@ def model(funs, target, kind):
             return ret.value
         return 9000 + fi
 
-    top = funs[0].get("top_filter", "Error")
+    top = funs[0].get("top_filter", "Error") if not funs[0].get("root") else "nothing catches what escapes a fiber"
     try:
         out.append("R %s" % call(0, [7000 + j for j in range(funs[0]["params"])]))
     except Raise as error:
-        if top == "Error" or top == error.cls:
+        if top == "Error" or top == error.ident:
             out.append("TOP %s" % error.cls)
         else:
             # no matching handler anywhere: the program ends here
